@@ -44,27 +44,31 @@ Record bnode : Type := mkB {
   b_jump_upd : option nat;
   b_root_end : option (list instr);
   b_cond_parent : option nat;
-  b_cond_items : list (nat * nat)     (* (node_index, jump_index_to_update) *)
+  b_cond_items : list (nat * nat);    (* (node_index, jump_index_to_update) *)
+  b_left_built : bool
 }.
 
-Definition b_new (p c : nat) : bnode := mkB false p c None 0 true None None None [].
-Definition b_new_list (p c lp : nat) (d : definition) : bnode := mkB false p c (Some (lp, d)) 0 true None None None [].
-Definition b_new_cond (p c cp : nat) : bnode := mkB false p c None 0 true None None (Some cp) [].
-Definition b_new_jump (p c j : nat) : bnode := mkB false p c None 0 true (Some j) None None [].
-Definition b_new_jump_end (p c j : nat) (e : list instr) : bnode := mkB false p c None 0 true (Some j) (Some e) None [].
+Definition b_new (p c : nat) : bnode := mkB false p c None 0 true None None None [] false.
+Definition b_new_list (p c lp : nat) (d : definition) : bnode := mkB false p c (Some (lp, d)) 0 true None None None [] false.
+Definition b_new_cond (p c cp : nat) : bnode := mkB false p c None 0 true None None (Some cp) [] false.
+Definition b_new_jump (p c j : nat) : bnode := mkB false p c None 0 true (Some j) None None [] false.
+Definition b_new_jump_end (p c j : nat) (e : list instr) : bnode := mkB false p c None 0 true (Some j) (Some e) None [] false.
 
 Definition b_set_init (b : bnode) : bnode :=
   mkB true (b_pidx b) (b_containing b) (b_list_parent b) (b_child_count b) (b_contrib b)
-      (b_jump_upd b) (b_root_end b) (b_cond_parent b) (b_cond_items b).
+      (b_jump_upd b) (b_root_end b) (b_cond_parent b) (b_cond_items b) (b_left_built b).
 Definition b_set_contrib (v : bool) (b : bnode) : bnode :=
   mkB (b_init b) (b_pidx b) (b_containing b) (b_list_parent b) (b_child_count b) v
-      (b_jump_upd b) (b_root_end b) (b_cond_parent b) (b_cond_items b).
+      (b_jump_upd b) (b_root_end b) (b_cond_parent b) (b_cond_items b) (b_left_built b).
 Definition b_inc_count (b : bnode) : bnode :=
   mkB (b_init b) (b_pidx b) (b_containing b) (b_list_parent b) (S (b_child_count b)) (b_contrib b)
-      (b_jump_upd b) (b_root_end b) (b_cond_parent b) (b_cond_items b).
+      (b_jump_upd b) (b_root_end b) (b_cond_parent b) (b_cond_items b) (b_left_built b).
 Definition b_add_item (it : nat * nat) (b : bnode) : bnode :=
   mkB (b_init b) (b_pidx b) (b_containing b) (b_list_parent b) (b_child_count b) (b_contrib b)
-      (b_jump_upd b) (b_root_end b) (b_cond_parent b) (b_cond_items b ++ [it]).
+      (b_jump_upd b) (b_root_end b) (b_cond_parent b) (b_cond_items b ++ [it]) (b_left_built b).
+Definition b_set_left_built (b : bnode) : bnode :=
+  mkB (b_init b) (b_pidx b) (b_containing b) (b_list_parent b) (b_child_count b) (b_contrib b)
+      (b_jump_upd b) (b_root_end b) (b_cond_parent b) (b_cond_items b) true.
 
 Record bstate : Type := mkBS {
   bnodes : list (option bnode);
@@ -163,6 +167,24 @@ Definition handle_unary (i : instruction) (child : option nat) (s : bstate) (sta
     do c <- need child;
     do s2 <- assign_b s1 c (b_new c (b_containing b));
     Ok (s2, c :: b_pidx b :: stack)
+  else Ok (push_instr s (i, ONone) (Some (b_pidx b)), stack).
+
+(* handle_unary_suffix: a right child (a side effect block following the suffix
+   expression) is built after the operation *)
+Definition handle_unary_suffix (i : instruction) (s : bstate) (stack : list nat)
+           (ni : nat) (pn : pnode) : res wl :=
+  do b <- get_b s ni;
+  if negb (b_init b) then
+    do s1 <- put_b s ni (b_set_init b);
+    let c := b_containing b in
+    do r1 <- match n_right pn with
+             | None => Ok (s1, stack)
+             | Some r => do s2 <- assign_b s1 r (b_new r c); Ok (s2, r :: stack)
+             end;
+    let '(s2, st2) := r1 in
+    do l <- need (n_left pn);
+    do s3 <- assign_b s2 l (b_new l c);
+    Ok (s3, l :: ni :: st2)
   else Ok (push_instr s (i, ONone) (Some (b_pidx b)), stack).
 
 Definition handle_binary (i : instruction) (left_right_order : bool) (s : bstate) (stack : list nat)
@@ -287,15 +309,21 @@ Definition handle_else (s : bstate) (stack : list nat) (ni : nat) (pn : pnode) :
       end
     end.
 
-Definition handle_fix_apply (child : option nat) (s : bstate) (stack : list nat) (ni : nat) : res wl :=
+Definition handle_fix_apply (child : option nat) (after : option nat) (s : bstate) (stack : list nat) (ni : nat) : res wl :=
   do b <- get_b s ni;
   if negb (b_init b) then
     do s1 <- put_b s ni (b_set_init b);
     if negb (lit_ok ni) then Err E_literal else
     let s2 := push_instr s1 (I_Resolve, OData ni) None in
     do c <- need child;
-    do s3 <- assign_b s2 c (b_new c (b_containing b));
-    Ok (s3, c :: ni :: stack)
+    let cj := b_containing b in
+    do r1 <- match after with
+             | None => Ok (s2, stack)
+             | Some a => do s' <- assign_b s2 a (b_new a cj); Ok (s', a :: stack)
+             end;
+    let '(s3, st3) := r1 in
+    do s4 <- assign_b s3 c (b_new c cj);
+    Ok (s4, c :: ni :: st3)
   else Ok (push_instr s (I_Apply, ONone) (Some ni), stack).
 
 Definition binary_instruction (d : definition) : option (instruction * bool) :=
@@ -338,9 +366,9 @@ Definition handle_parse_node (s : bstate) (current_root_jump : nat) (stack : lis
   | D_Tis => handle_unary I_Tis (n_right pn) s stack ni
   | D_TypeOf => handle_unary I_TypeOf (n_right pn) s stack ni
   | D_AccessLeftInternal => handle_unary I_AccessLeftInternal (n_right pn) s stack ni
-  | D_EmptyApply => handle_unary I_EmptyApply (n_left pn) s stack ni
-  | D_AccessRightInternal => handle_unary I_AccessRightInternal (n_left pn) s stack ni
-  | D_AccessLengthInternal => handle_unary I_AccessLengthInternal (n_left pn) s stack ni
+  | D_EmptyApply => handle_unary_suffix I_EmptyApply s stack ni pn
+  | D_AccessRightInternal => handle_unary_suffix I_AccessRightInternal s stack ni pn
+  | D_AccessLengthInternal => handle_unary_suffix I_AccessLengthInternal s stack ni pn
   | D_CommaList | D_List => handle_list s stack ni pn
   | D_Or => handle_logical I_Or s stack ni pn
   | D_And => handle_logical I_And s stack ni pn
@@ -354,6 +382,12 @@ Definition handle_parse_node (s : bstate) (current_root_jump : nat) (stack : lis
       end
   | D_SideEffect =>
       do b <- get_b s ni;
+      match (if negb (b_init b) && negb (b_left_built b) then n_left pn else None) with
+      | Some l =>
+        do s1 <- put_b s ni (b_set_left_built b);
+        do s2 <- assign_b s1 l (b_new l (b_containing b));
+        Ok (s2, l :: ni :: stack)
+      | None =>
       if negb (b_init b) then
         do s1 <- put_b s ni (b_set_init b);
         let s2 := push_instr s1 (I_StartSideEffect, ONone) (Some ni) in
@@ -362,6 +396,7 @@ Definition handle_parse_node (s : bstate) (current_root_jump : nat) (stack : lis
         | Some r => do s3 <- assign_b s2 r (b_new r (b_containing b)); Ok (s3, r :: ni :: stack)
         end
       else Ok (push_instr s (I_EndSideEffect, ONone) (Some ni), stack)
+      end
   | D_NestedExpression =>
       match n_right pn with
       | None => Ok (push_instr s (I_Put, OExpr current_root_jump) (Some ni), stack)
@@ -396,8 +431,8 @@ Definition handle_parse_node (s : bstate) (current_root_jump : nat) (stack : lis
         do s3 <- assign_b s2 l (b_new l c);
         Ok (s3, l :: ni :: r :: stack)
       else Ok (push_instr s (I_UpdateValue, ONone) (Some ni), stack)
-  | D_SuffixApply => handle_fix_apply (n_left pn) s stack ni
-  | D_PrefixApply => handle_fix_apply (n_right pn) s stack ni
+  | D_SuffixApply => handle_fix_apply (n_left pn) (n_right pn) s stack ni
+  | D_PrefixApply => handle_fix_apply (n_right pn) None s stack ni
   | D_InfixApply =>
       do b <- get_b s ni;
       if negb (b_init b) then
